@@ -15,13 +15,13 @@ import (
 // ---- C10: massive mode == simple mode up to the order of roots
 
 type c10Ref struct {
-	out     string
-	err     error
+	out      string
+	err      error
 	panicked string
-	blocks  []string // per-root blocks of the reference output (text/dry/json/yaml)
-	walk    []string
-	after   map[string]string
-	okBlocks []string // blocks of the roots that are valid on their own (used when the reference fails)
+	blocks   []string // per-root blocks of the reference output (text/dry/json/yaml)
+	walk     []string
+	after    map[string]string
+	okBlocks []string          // blocks of the roots that are valid on their own (used when the reference fails)
 	allowed  map[string]string // mkdir: pre-existing entries plus what each individually valid root creates
 }
 
